@@ -21,8 +21,13 @@ SUITES = {0x1301: ("SHA256", "GCM", 16), 0x1302: ("SHA384", "GCM", 32), 0x1303: 
 INITIAL, ZERORTT, HANDSHAKE, RETRY = 0, 1, 2, 3
 
 
+MIXRNG = None      # set by a caller that wants width="mix": every variable-length integer of a frame gets its own (seeded) width
+
+
 def varint(v: int, width=None) -> bytes:
     minimal = 1 if v < 64 else 2 if v < 16384 else 4 if v < 2 ** 30 else 8
+    if width == "mix":
+        width = MIXRNG.choice([x for x in (1, 2, 4, 8) if x >= minimal])
     width = minimal if width is None else max(width, minimal)      # a requested (non-minimal) width is a lower bound
     assert v < 1 << (8 * width - 2), (v, width)
     return (v | ({1: 0, 2: 1, 4: 2, 8: 3}[width] << (8 * width - 2))).to_bytes(width, "big")
@@ -84,9 +89,9 @@ def protect(keys: Keys, header: bytes, pn: int, pnlen: int, payload: bytes, shor
 
 
 def long_packet(keys: Keys, ptype: int, dcid: bytes, scid: bytes, pn: int, pnlen: int, payload: bytes,
-                token: bytes = b"", version=1, len_width=2, token_len_width=None, reserved=0):
+                token: bytes = b"", version=1, len_width=2, token_len_width=None, reserved=0, fixed=1):
     ln = pnlen + len(payload) + 16
-    hdr = bytes([0xC0 | (ptype << 4) | (reserved << 2) | (pnlen - 1)]) + struct.pack("!I", version)
+    hdr = bytes([0x80 | (0x40 if fixed else 0) | (ptype << 4) | (reserved << 2) | (pnlen - 1)]) + struct.pack("!I", version)
     hdr += bytes([len(dcid)]) + dcid + bytes([len(scid)]) + scid
     if ptype == INITIAL:
         hdr += varint(len(token), token_len_width) + token
@@ -94,8 +99,9 @@ def long_packet(keys: Keys, ptype: int, dcid: bytes, scid: bytes, pn: int, pnlen
     return protect(keys, hdr, pn, pnlen, payload, short=False)
 
 
-def short_packet(keys: Keys, dcid: bytes, pn: int, pnlen: int, payload: bytes, phase=0, spin=0):
-    hdr = bytes([0x40 | (spin << 5) | (phase << 2) | (pnlen - 1)]) + dcid
+def short_packet(keys: Keys, dcid: bytes, pn: int, pnlen: int, payload: bytes, phase=0, spin=0, fixed=1):
+    # fixed = 0: the QUIC bit is greased (RFC 9287; only towards a peer that sent the grease_quic_bit transport parameter)
+    hdr = bytes([(0x40 if fixed else 0) | (spin << 5) | (phase << 2) | (pnlen - 1)]) + dcid
     return protect(keys, hdr, pn, pnlen, payload, short=True)
 
 
